@@ -119,7 +119,9 @@ def serveN : Nat → Impl → List GenAnswer → Chunks → List Answer × Stop
       match decEnvelope m with
       | .error _ => ([], .badRequest)
       | .ok e =>
-        match dispatch i e.name gens.head? with
+        -- only Call (1) and OneWay (4) are requests; anything else is answered with
+        -- TApplicationException INVALID_MESSAGE_TYPE (2) and never reaches a handler
+        match (if e.etype = 1 ∨ e.etype = 4 then dispatch i e.name gens.head? else (SReply.exc 2, false, false)) with
         | (r, stop, used) =>
           if stop then ([⟨e.name, e.seqid, r⟩], .goodbye)
           else
